@@ -46,6 +46,11 @@ class C01(FprCheck):
             yield b0
             self.count("exact-translation")
             yield dict(b0, tr={"quant": 20, "origin_atom": at, "t": [rng.randrange(-2 ** 24, 2 ** 24) / 2.0 ** 20 for _ in range(3)]})
+            # ... and far from the origin along all three axes (1e5 - 5e5 A: coordinates still need only 40 bits, every difference is
+            # still exact): a tolerance that scales with the absolute position would show here
+            self.count("exact-translation:far")
+            yield dict(b0, tr={"quant": 20, "origin_atom": at,
+                               "t": [rng.choice([-1, 1]) * rng.randrange(2 ** 37, 2 ** 39) / 2.0 ** 20 for _ in range(3)]})
 
     def umbrella_cases(self):
         """every synthetic AX_k conformer (mean neighbour vector 0.03-0.3 A around the 0.1 A guard of pick_y), default options
